@@ -124,6 +124,12 @@ func NewEpochFromConfig(
 	if config == nil {
 		return nil, fmt.Errorf("config must not be nil")
 	}
+	// The --watch reload gets here with whatever the file held when the write event fired (possibly a
+	// half-written file that still parses): without an epoch number or a data section the code below
+	// dereferences nil, in a goroutine nobody recovers.
+	if err := config.Validate(); err != nil {
+		return nil, fmt.Errorf("invalid config: %w", err)
+	}
 	isLassieMode := config.IsFilecoinMode()
 	isCarMode := !isLassieMode
 
